@@ -148,12 +148,12 @@ _add('k_clone_dyn_of_boxed', COMMON, 'boxed.rs', 'bounded', 'original built by n
 FAILING = [
     ('k_module_size_any_range',
      'C01/C04 (module.rs): ModuleTag::module_size computes mod_end - mod_start unchecked: "attempt to subtract with overflow" '
-     '(module.rs:71; panic in debug, silent wrap in release) for a stored range with mod_end < mod_start, e.g. mod_start = 1, mod_end = 0 '
-     '(tag bytes 03 00 00 00 | 11 00 00 00 | 01 00 00 00 | 00 00 00 00 | 00).  Arithmetic overflow is not a controlled panic.  '
+     '(module.rs:71; panic in debug, silent wrap in release) for a stored range with mod_end < mod_start, Kani counterexample (--playback): tag bytes '
+     '03 00 00 00 | 11 00 00 00 | ff ff ff ff | ff ff ff 7f | ff.. (mod_start = 0xffffffff, mod_end = 0x7fffffff; any mod_end < mod_start works).  Arithmetic overflow is not a controlled panic.  '
      'The Debug impl of ModuleTag calls module_size() as well.'),
     ('k_network_dst_len_any',
      'C05 (network.rs): NetworkTag::dst_len computes header.size - 8 WITHOUT the `assert!(size >= BASE_SIZE)` every other DST kind has: '
-     '"attempt to subtract with overflow" (network.rs:35) for a header with size < 8, e.g. size = 0.  Not reachable through '
+     '"attempt to subtract with overflow" (network.rs:35) for a header with size < 8 (Kani counterexample: size = 7).  Not reachable through '
      'ref_from_slice / TagIter (TagHeader::payload_len asserts size >= 8 first; see k_network_size_any, which passes), only when dst_len is '
      'called directly on a header (it is a public trait fn) -- defence-in-depth gap, in release the wrapped value would become slice metadata.'),
 ]
